@@ -51,6 +51,14 @@ func (bucket *Bucket) UUID() (string, error) {
 func (bucket *Bucket) Close(_ context.Context) {
 	traceEnter("Bucket.Close", "%s", bucket)
 
+	// Closing a handle twice must not release another handle's reference.
+	bucket.mutex.Lock()
+	alreadyClosed := bucket.closed
+	bucket.mutex.Unlock()
+	if alreadyClosed {
+		return
+	}
+
 	unregisterBucket(bucket)
 	verifPoint("close.afterunregister", bucket.name)
 
